@@ -414,6 +414,22 @@ func (g *G) call(op string, serial uint32) callSpec {
 			segs[uint8(k)] = types.Segment{Start: s, End: e}
 			ps = append(ps, []any{k, segPair(psx, pex)})
 		}
+		// entries under keys that are no segment numbers (0, 4, 5, 255): they mean nothing - in particular they do not
+		// stand in for a missing segment 1..3 (more likely when one is missing: the map then has three entries again)
+		if g.r.Intn(3) == 0 || len(segs) < 3 && g.r.Intn(2) == 0 {
+			for _, k := range []uint8{0, 4, 5, 255} {
+				if g.r.Intn(2) == 0 {
+					continue
+				}
+				s, psx := g.hhmm()
+				e, pex := g.hhmm()
+				if e.Before(s) {
+					s, e, psx, pex = e, s, pex, psx
+				}
+				segs[k] = types.Segment{Start: s, End: e}
+				ps = append(ps, []any{int(k), segPair(psx, pex)})
+			}
+		}
 		if g.r.Intn(10) == 0 && !g.inDomain {
 			segs = nil
 			ps = []any{}
@@ -430,8 +446,13 @@ func (g *G) call(op string, serial uint32) callSpec {
 					ps2 = append(ps2, []any{int(k), segPair(projHHmm(sg.Start), projHHmm(sg.End))})
 				}
 			}
+			for _, k := range []uint8{0, 4, 5, 255} {
+				if sg, ok := profile.Segments[k]; ok {
+					ps2 = append(ps2, []any{int(k), segPair(projHHmm(sg.Start), projHHmm(sg.End))})
+				}
+			}
 			for k := range profile.Segments {
-				if k < 1 || k > 3 {
+				if k > 5 && k != 255 {
 					ps2 = append(ps2, []any{int(k), segPair(projHHmm(profile.Segments[k].Start), projHHmm(profile.Segments[k].End))})
 				}
 			}
@@ -500,7 +521,29 @@ func (g *G) call(op string, serial uint32) callSpec {
 			pc = append(pc, u32(c))
 		}
 		a["door"], a["codes"] = int(door), pc
-		f = func(u uhppote.IUHPPOTE) (any, error) { return u.SetDoorPasscodes(serial, door, codes...) }
+		// the codes are a window into a larger table of the caller's (spare capacity behind the slice): what lies behind
+		// the window is not the library's to write
+		table := make([]uint32, len(codes)+6)
+		copy(table, codes)
+		tail := []any{}
+		for i := len(codes); i < len(table); i++ {
+			table[i] = 700000 + uint32(i)
+			tail = append(tail, u32(table[i]))
+		}
+		a["tail"] = tail
+		win := table[:len(codes)]
+		f = func(u uhppote.IUHPPOTE) (any, error) { return u.SetDoorPasscodes(serial, door, win...) }
+		reproj = func() M {
+			pc2, tail2 := []any{}, []any{}
+			for i, c := range table {
+				if i < len(codes) {
+					pc2 = append(pc2, u32(c))
+				} else {
+					tail2 = append(tail2, u32(c))
+				}
+			}
+			return M{"serial": u32(serial), "door": int(door), "codes": pc2, "tail": tail2}
+		}
 	case "OpenDoor":
 		door := g.u8()
 		a["door"] = int(door)
